@@ -31,6 +31,9 @@ HARNESSES = {
     "token_buffer_v4": ("src/token.rs", "token(v4 ip, secret) = SHA1(4 address octets ++ big-endian secret)", True),
     "token_buffer_v6": ("src/token.rs", "token(v6 ip, secret) = SHA1(16 address octets ++ big-endian secret)", True),
     "token_new_len": ("src/token.rs", "Token::new accepts exactly 20 bytes and keeps them", True),
+    "id_deserialize_exactly_20_bytes": ("src/info_hash.rs", "BOUNDED (byte strings of up to 24 bytes): info_hash.rs byte_array::deserialize, driven through serde's BytesDeserializer, accepts exactly 20 bytes and keeps them", False),
+    "compact_nodes_v4_length_check": ("src/compact.rs", "BOUNDED (byte strings of up to 29 bytes = one entry + 3): compact::nodes_v4::deserialize accepts a string iff its length is a multiple of 26 and yields one handle per 26 bytes", False),
+    "compact_nodes_v6_length_check": ("src/compact.rs", "BOUNDED (byte strings of up to 41 bytes = one entry + 3): compact::nodes_v6::deserialize accepts a string iff its length is a multiple of 38 and yields one handle per 38 bytes", False),
     "bucket_add_newcomer": ("src/bucket.rs", "Bucket::add_node on all 3^8 status patterns of a bucket of 8 distinct nodes x a newcomer of any standing: at most one slot changes, the victim is strictly lower, no live node is displaced while a bad slot exists, a bucket without a lower slot rejects unchanged (clock stubbed; ~8-20 min)", True),
 }
 
@@ -191,13 +194,17 @@ def run_harnesses(pid, harnesses, tier, cov, cmds, scratch_root):
             continue
         hr = c["hr"]
         src, what, complete = HARNESSES[h]
-        cov["obligations"] += max(hr["checks"], 1)
+        # a bounded stand-in is reported, never counted as a discharged proof obligation
+        if complete:
+            cov["obligations"] += max(hr["checks"], 1)
         entry = {"harness": h, "appended_to": src, "proves": what, "checks": hr["checks"], "failed": hr["failed_n"],
                  "status": hr["status"], "covers": hr["covers"], "complete": complete,
-                 "bound": "loops bounded by constants of the code (20 id bytes, 4/8/16 address bytes, 8 bucket slots), unwinding assertions on; inputs fully symbolic"}
-        cov["kani_harnesses"].append(entry)
+                 "bound": ("loops bounded by constants of the code (20 id bytes, 4/8/16 address bytes, 8 bucket slots), unwinding assertions on; inputs fully symbolic" if complete
+                           else "BOUNDED stand-in: input length bounded as stated, contents fully symbolic, unwinding assertions on; alloc::fmt::format stubbed (error texts)")}
+        cov["kani_harnesses" if complete else "bounded_checks"].append(entry) if complete else cov.setdefault("bounded_checks", []).append(entry)
         if hr["status"] == "SUCCESSFUL":
-            cov["discharged"] += max(hr["checks"], 1)
+            if complete:
+                cov["discharged"] += max(hr["checks"], 1)
             if hr["covers"] and hr["covers"][0] < hr["covers"][1]:
                 out["inconclusive"].append("kx vacuity guard: cover! unreachable in %s" % h)
             if len(cov["samples"]) < 8:
@@ -208,7 +215,8 @@ def run_harnesses(pid, harnesses, tier, cov, cmds, scratch_root):
             if unwinding and not real:
                 out["inconclusive"].append("kx: unwinding bound too small for %s on the current tree" % h)
                 continue
-            cov["discharged"] += max(hr["checks"] - hr["failed_n"], 0)
+            if complete:
+                cov["discharged"] += max(hr["checks"] - hr["failed_n"], 0)
             out["violations"].append({
                 "obligation": "kx::%s#%s" % (h, (real[0] if real else "failed")[:80]),
                 "message": "; ".join(real)[:400] or "verification failed",
